@@ -16,6 +16,7 @@
   abstract predicate `wf`; everything about hashes is explicit.
 -/
 import GV.Gen.SegCounts
+import GV.Gen.BodyGate
 namespace GV.Model.BodyHash
 
 abbrev Bytes := List UInt8
@@ -159,6 +160,28 @@ def eras : List (String × Era) :=
     (GV.Gen.SegCounts.arity.lookup k).map fun a => (k, { arity := a, segCount := n })
 
 def eraOf (name : String) : Option Era := eras.lookup name
+
+/-! ### `common.VerifyConfig` and the gate of the decode-time check -/
+
+/-- the boolean fields of `common.VerifyConfig` (one entry per field; absent = false) -/
+structure Cfg where
+  flags : List (String × Bool)
+
+def Cfg.get (c : Cfg) (name : String) : Bool := (c.flags.lookup name).getD false
+
+/-- the config field whose negation guards the decode-time body check of an era's block
+    constructor, AS IT IS in the source now (`GV.Gen.BodyGate.gate`, regenerated by go/ast) -/
+def gateOf (era : String) : String := (GV.Gen.BodyGate.gate.lookup era).getD ""
+
+/-- `if !cfg.<gate field> { …body check… }`: is the check skipped under this config? -/
+def skipped (era : String) (c : Cfg) : Bool := c.get (gateOf era)
+
+/-- the config the harness builds: `SkipBodyHashValidation := skip`, and bit `i` of `mask` for
+    the i-th OTHER boolean field in declaration order (`GV.Gen.BodyGate.verifyConfigBools`) -/
+def cfgOf (skip : Bool) (mask : Nat) : Cfg :=
+  let others := GV.Gen.BodyGate.verifyConfigBools.filter (· != "SkipBodyHashValidation")
+  { flags := ("SkipBodyHashValidation", skip) ::
+      (List.range others.length).map fun i => (others.getD i "", (mask / 2 ^ i) % 2 == 1) }
 
 def Verdict.render : Verdict → String
   | .ok => "ok"
